@@ -363,6 +363,9 @@ def gen_modules(tier, safe_modules, transitive):
         root = m.split(".")[0]
         for fi, form in enumerate(FORMS if tier != "quick" else [FORMS[i % len(FORMS)], FORMS[(i + 2) % len(FORMS)]]):
             src = safe_src((m,), form)
+            # the control: nothing around the script - it must be approved and run without any effect
+            cases.append(Case("modules", {"module": m, "form": form, "nb": "none", "rel": "none"}, [("d", "w"), ("d", "home"), ("f", "w/x.py", src)],
+                              "python3 x.py", "w", ["python3", "x.py"]))
             for kind in kinds_direct:
                 role = f"nb.real.{kind}.{root}"
                 ops = [("d", "w"), ("d", "home"), ("f", "w/x.py", src)] + nb_ops("w", root, kind, role)
